@@ -168,6 +168,12 @@ def gen_fn(rng, sym, shape=None) -> Fn:
         f.ret, f.retv = rt, (rng.choice(by_t[rt]) if by_t.get(rt) else const(rt))
         if rng.random() < 0.6 and f.prog and f.prog[-1][4] == rt:
             f.retv = f.prog[-1][0]
+        if shape != "unsupported" and rng.random() < 0.5 and len(by_t.get(rt, ())) > 2:
+            # keep more of the DAG alive: fold a few earlier values into the returned one
+            acc = f.retv
+            for v in rng.sample(by_t[rt], min(len(by_t[rt]), rng.randint(1, 3))):
+                acc = binop(rt, a=acc, b=v)
+            f.retv = acc
     elif shape == "live":
         # L values all live until a final reduction (forces callee-saved registers / OutOfRegisters)
         t = base_t
@@ -397,9 +403,13 @@ def stack_shift_model(fn, facts, rows, obs_list, refrun):
 
 # ----------------------------------------------------------------------------------------------- plan / work
 def plan(tier, seed):
+    import os
     if tier == "quick":
-        return [{"shard": i, "seed": seed, "modules": 44, "valgrind": 0} for i in range(16)]
-    return [{"shard": i, "seed": seed, "modules": 640, "valgrind": 50 if i < 12 else 0} for i in range(64)]
+        jobs = [{"shard": i, "seed": seed, "modules": 64, "valgrind": 0} for i in range(16)]
+    else:
+        jobs = [{"shard": i, "seed": seed, "modules": 640, "valgrind": 60 if i < 12 else 0} for i in range(64)]
+    k = os.environ.get("XV_C21_SHARDS")  # self-tests only: run a prefix of the real shards (finish() then reports inconclusive)
+    return jobs[:int(k)] if k else jobs
 
 
 def work(job):
@@ -430,11 +440,14 @@ def work(job):
         if not os.path.exists(os.path.join(root, a)):
             raise RuntimeError(f"anchored file missing: {a}")
 
-    nat = x86run.Native()
+    nat = x86run.Native(child_timeout=120.0)
     journal("controls")
     for k, v in nat.controls().items():
         inc(k, v)
     inc("shards_with_controls_passed")
+    if job.get("valgrind", 0):
+        for k, v in nat.controls(valgrind=True).items():
+            inc("memcheck_" + k, v)
 
     if "replay_text" in job:
         mods = [(None, job["replay_text"])]
@@ -651,13 +664,15 @@ def on_lost(info):
 def finish(agg, tier):
     c = agg.counters
     inc = []
-    need = {"quick": {"functions_executed": 200, "native_calls": 3000, "results_compared": 2500, "nontrivial_functions": 100,
-                      "functions_with_stack_args": 40, "functions_reading_stack_args": 25, "controls_bad_flagged": 12 * 8,
-                      "controls_crash_contained": 2 * 8, "oracle_crosschecks": 2500},
-            "thorough": {"functions_executed": 10000, "native_calls": 150000, "results_compared": 120000,
-                         "nontrivial_functions": 5000, "functions_with_stack_args": 2000, "functions_reading_stack_args": 1200,
-                         "controls_bad_flagged": 12 * 32, "controls_crash_contained": 2 * 32, "oracle_crosschecks": 120000,
-                         "functions_under_memcheck": 300}}[tier]
+    need = {"quick": {"functions_executed": 300, "native_calls": 4500, "results_compared": 4000, "nontrivial_functions": 120,
+                      "functions_with_stack_args": 120, "functions_reading_stack_args": 35, "functions_with_prologue_push": 30,
+                      "controls_bad_flagged": 12 * 12, "controls_crash_contained": 2 * 12, "controls_hang_contained": 12,
+                      "oracle_crosschecks": 4000, "void_functions_executed": 20},
+            "thorough": {"functions_executed": 12000, "native_calls": 190000, "results_compared": 160000,
+                         "nontrivial_functions": 5000, "functions_with_stack_args": 5000, "functions_reading_stack_args": 1500,
+                         "functions_with_prologue_push": 1200, "controls_bad_flagged": 12 * 48, "controls_crash_contained": 2 * 48,
+                         "controls_hang_contained": 48, "oracle_crosschecks": 160000, "void_functions_executed": 800,
+                         "functions_under_memcheck": 500, "memcheck_controls_valgrind_flagged": 8}}[tier]
     for k, v in need.items():
         if c.get(k, 0) < v:
             inc.append(f"{k}={c.get(k, 0)} < {v}")
